@@ -8,6 +8,7 @@ type hxLeafSpec struct {
 	name    string
 	enc     Encoding
 	content []byte
+	charset string // expected charset parameter of a body part ("" = utf-8)
 }
 
 func hxCTEName(e Encoding) string { return string(e) }
@@ -63,7 +64,11 @@ func hxCheckLeaf(e *hxEnt, s hxLeafSpec) {
 	case 0:
 		cs, ok := hxParam(e.params, "charset")
 		hxA(ok, "leaf-charset-missing")
-		hxA(hxLower(cs) == "utf-8", "leaf-charset")
+		wantCS := "utf-8"
+		if s.charset != "" {
+			wantCS = s.charset
+		}
+		hxA(hxLower(cs) == wantCS, "leaf-charset")
 		hxA(e.disp == "", "part-has-disposition")
 	case 1, 2:
 		want := "inline"
@@ -445,3 +450,5 @@ func HarnessC01LongLine() {
 	svReach("rendered")
 	hxCheckTree(root, specs)
 }
+
+
